@@ -232,6 +232,16 @@ def gen_hierarchies(rng, n):
             hier.append([name, bases, props])
         if ok:
             out.append(hier)
+    # directed: an additive default that is the primary one for two different classes (mixin + sibling), additive chains
+    # through a diamond, a final default met again along a second path
+    A = lambda deps=(): [list(deps), True, False, False]
+    P = lambda deps=(), fin=False: [list(deps), False, False, fin]
+    out += [
+        [["K0", [], [["c", *A()]]], ["K1", [], [["a", *P()], ["c", *A(["a"])]]], ["K2", ["K0", "K1"], []], ["K3", ["K0"], []]],
+        [["K0", [], [["a", *P()], ["c", *A()]]], ["K1", ["K0"], [["bb", *P()], ["c", *A(["bb"])]]],
+         ["K2", ["K0"], [["c", *A(["a"])]]], ["K3", ["K1", "K2"], []], ["K4", ["K2"], [["c", *A()]]]],
+        [["K0", [], [["a", *P(fin=True)]]], ["K1", ["K0"], [["bb", *P(["a"])]]], ["K2", ["K0"], []], ["K3", ["K1", "K2"], []]],
+    ]
     return out
 
 
@@ -278,7 +288,15 @@ def check_merge(c, it, exe, entries):
                 okm = (model_d == impl_d and model_f == sorted(it.prop(x) for x in impl["finals"])
                        and model_y == sorted(it.prop(x) for x in impl["dynamics"])
                        and all(r["name"] == "PropertyDefault" and r["prios"] == [[p, -1]] and not r["mod"] for p, r in impl["defaults"]))
+        alias = False
+        if not okm and "error" not in impl and o.startswith("OK D "):
+            # the one difference: additive defaults carrying extra dependencies (those of a definition outside this MRO)
+            additive = {it.prop(p) for _, props in mro for p, d in props if d["additive"]}
+            alias = (model_f == sorted(it.prop(x) for x in impl["finals"]) and model_y == sorted(it.prop(x) for x in impl["dynamics"])
+                     and [p for p, _ in model_d] == [p for p, _ in impl_d]
+                     and all(dm == di or (p in additive and set(dm) < set(di)) for (p, dm), (_, di) in zip(model_d, impl_d)))
         if not okm:
+            ident = dict(ident, only_extra_dependencies_on_additive_defaults=alias)
             names = {v: k for k, v in it.props.items()}
             c.violation("merge-defaults", "class-level merging of defaults differs between model (merge_defaults) and implementation",
                         dict(ident, mro=[[n, [[p, d["deps"], "additive" * d["additive"], "dynamic" * d["dynamic"], "final" * d["final"]] for p, d in props]] for n, props in mro][:8],
